@@ -118,6 +118,7 @@ func RandomSpec(r *sim.Rand) DocSpec {
 	sp.StdWidths = on(density / 2)
 	sp.BlankPages = on(density / 2)
 	sp.Headings = on(density)
+	sp.GState = on(density)
 	if on(density) {
 		sp.Running = 1 + r.Intn(5)
 	}
@@ -187,6 +188,7 @@ func (sp DocSpec) Features() []string {
 	add(sp.TextOps >= 2, "textops=mixed")
 	add(sp.FormXObj, "form-xobject")
 	add(sp.Superscripts, "superscripts")
+	add(sp.GState, "gstate")
 	add(sp.Running > 0, "running-heads")
 	add(sp.FormXObj && sp.FormNest > 0, "form-nest")
 	add(sp.StdWidths, "std-widths")
@@ -583,6 +585,13 @@ func (sp DocSpec) Shrinks() []DocSpec {
 		return true
 	})
 	try(func(s *DocSpec) bool {
+		if !s.GState {
+			return false
+		}
+		s.GState = false
+		return true
+	})
+	try(func(s *DocSpec) bool {
 		if s.Running == 0 {
 			return false
 		}
@@ -749,6 +758,9 @@ func SpecWithFeatures(features []string) (DocSpec, bool) {
 		case f == "running-heads":
 			sp.Running = 4
 			sp.Pages = 3
+		case f == "gstate":
+			sp.GState = true
+			sp.Lines = 6
 		case f == "superscripts":
 			sp.Superscripts = true
 			sp.Lines = 5
@@ -898,6 +910,8 @@ func (sp DocSpec) Without(f string) DocSpec {
 		c.Headings = false
 	case f == "running-heads":
 		c.Running = 0
+	case f == "gstate":
+		c.GState = false
 	case f == "superscripts":
 		c.Superscripts = false
 	case f == "form-xobject":
